@@ -1130,7 +1130,10 @@ func harvestObserve(c *vh.Ctx, e *hvEnv, p *proj.Project, automan []proj.AutoEnt
 				if akf >= 1 && gA.ODU[akf-1] == 1 && gA.ORGTIME[akf-1] == "H" && zeit == gA.ZTDG[akf-1] {
 					d.EventDay = true
 				}
-				if akf >= 1 && gA.SAAT[akf] > 0 && zeit >= gA.SAAT[akf] && gA.ODU[akf] == 1 && gA.ORGTIME[akf-1] == "S" {
+				// organic dressing "at sowing" of the entry being grown (nitro.go:92-106, time code of THIS entry since the
+				// repair 6a0c122): applied ORGDOY days after sowing
+				if gA.SAAT[akf] > 0 && zeit >= gA.SAAT[akf] && gA.ODU[akf] == 1 && gA.ORGTIME[akf] == "S" &&
+					((zeit == gA.SAAT[akf] && gA.ORGDOY[akf] == 0) || (zeit > gA.SAAT[akf] && zeit == gA.ZTDG[akf])) {
 					d.EventDay = true
 				}
 			}
